@@ -22,7 +22,7 @@ Fixpoint interp_sem (m : memo_t) (ps : list (string * option path)) (acc : strin
   | (text, None) :: r => interp_sem m r (acc +++ text) unk sec
   | (text, Some p) :: r =>
       match aresolve E m p with
-      | Some pv => let '(s, u, sc) := to_string big_fuel pv in
+      | Some pv => let '(s, u, sc) := to_string (ts_need pv) pv in
                    interp_sem m r (if u then acc +++ text else acc +++ text +++ s) (unk || u) (sec || sc)
       | None => None
       end
@@ -33,7 +33,7 @@ Lemma interp_sem_mono m m' : donele m m' -> forall ps acc unk sec r,
 Proof.
   intro Hle. induction ps as [|[text [p|]] rest IH]; intros acc unk sec r H; cbn [interp_sem] in *; [exact H| |apply IH, H].
   destruct (aresolve E m p) as [pv|] eqn:Ea; [|discriminate]. rewrite (aresolve_mono E m m' p pv Hle Ea).
-  destruct (to_string big_fuel pv) as [[s u] sc]. apply IH, H.
+  destruct (to_string (ts_need pv) pv) as [[s u] sc]. apply IH, H.
 Qed.
 
 Lemma interp_go_mono f ps acc unk sec : mono (interp_go (eval_access W f E) ps acc unk sec).
@@ -51,7 +51,7 @@ Proof.
   - rewrite interp_go_nil in *. exists acc, unk, sec. split; reflexivity.
   - rewrite interp_go_ref, bind_eq in *. cbn [interp_sem].
     set (c1 := eval_access W f E p s) in *.
-    destruct (to_string big_fuel (fst c1)) as [[s0 u0] sc0] eqn:Ets.
+    destruct (to_string (ts_need (fst c1)) (fst c1)) as [[s0 u0] sc0] eqn:Ets.
     assert (Hc1 : clean (snd c1)) by (eapply clean_le; [apply interp_go_mono|exact Hc]).
     pose proof (eval_access_resolves W E f p s Hc1) as Hr. fold c1 in Hr.
     destruct (IH _ _ _ (snd c1) Hc) as (a & u & c & H1 & H2).
@@ -237,7 +237,8 @@ Proof.
                 big_fuel xv Hx) as (xk & Hxa & Hxe).
     rewrite Hacc in Hxa. injection Hxa as <-. rewrite Hacc.
     destruct (export_scalar_inv _ _ _ _ Hxe) as (sch & r & ->).
-    rewrite (to_string_scalar big_fuel s0 sch x0 r big_fuel_pos) in H. rewrite orb_false_r in H.
+    change (to_string (ts_need (LScalar s0 false sch x0 :: r)) (LScalar s0 false sch x0 :: r)) with (scalar_text x0, false, s0) in H.
+    cbv beta iota in H. rewrite orb_false_r in H.
     apply (IH _ _ _ _ _ _ (fun t q Hin => Hall t q (or_intror Hin)) H).
   - apply (IH _ _ _ _ _ _ (fun t q Hin => Hall t q (or_intror Hin)) H).
 Qed.
